@@ -12,7 +12,7 @@ def build(groups):
         pid = p['id']
         gs = [g for g in groups if g.prop == pid or pid in g.also]
         meta = propmeta.META.get(pid, {})
-        if not gs or meta.get('not_applicable'):
+        if not gs or meta.get('not_applicable') or pid not in propmeta.META:
             na.append(dict(property_id=pid, reason=meta.get('not_applicable') or 'no check built yet for this property (work in progress, see DESIGN.md section 4)'))
             continue
         quick = [g for g in gs if g.tier == 'quick']
